@@ -1,6 +1,7 @@
 (** C10 -- The GDSII reader never crashes or hangs on any input bytes.
     Property theorems only; proofs are in Gds/GdsSafety_proofs.v (reader safety) and
-    Gds/GdsImage_proofs.v (what the reader can return).
+    Gds/GdsImage_proofs.v (what the reader can return); the write-then-read round trip used by (4)
+    is Gds/GdsRoundtrip_proofs.v (shared with C01).
     Model: Gds/GdsRead.v ([read_lib_fuel fixed fuel bs]; [fixed = true] is the code after the repair
     of read_str, commit a280dfb; [read_lib] / [read_lib_orig] run it with [read_fuel bs] =
     length bs / 4 + 3 units of fuel). Every slice, index and `unwrap` of the Rust code is an explicit
@@ -10,7 +11,7 @@
     proved (DESIGN.md section 4): the model-level statement is the bound on fuel. *)
 From Coq Require Import ZArith Bool List.
 From L21 Require Import Base.Outcome Base.Hex Gds.GdsData Gds.GdsRecord Gds.GdsWrite Gds.GdsRead Gds.GdsSpec
-     Gds.GdsSafety_proofs.
+     Gds.GdsRtDefs Gds.GdsRoundtrip_proofs Gds.GdsSafety_proofs Gds.GdsImage_proofs.
 Import ListNotations.
 Local Open Scope Z_scope.
 
@@ -28,6 +29,16 @@ Proof. exact read_terminates. Qed.
 
 Theorem C10_fuel_bound : forall bs f, (length bs < 4 * f)%nat -> read_lib_fuel true f bs <> OutOfFuel.
 Proof. exact read_enough_fuel. Qed.
+
+(** The fuel is immaterial beyond that bound: every fuel above length bs / 4 gives the answer of
+    [read_lib], and more fuel never changes an answer once there is one. So [read_lib] is the
+    function the code computes, and no run of it nests more than length bs / 4 + 3 loop iterations. *)
+Theorem C10_fuel_irrelevant : forall bs f, (length bs < 4 * f)%nat -> read_lib_fuel true f bs = read_lib bs.
+Proof. exact read_fuel_irrelevant. Qed.
+
+Theorem C10_fuel_monotone :
+  forall f f' bs, (f <= f')%nat -> read_lib_fuel true f bs <> OutOfFuel -> read_lib_fuel true f' bs = read_lib_fuel true f bs.
+Proof. exact read_lib_fuel_mono. Qed.
 
 (** hence: reading returns a library or an error *)
 Theorem C10_read_total : forall bs, (exists l, read_lib bs = Ok l) \/ (exists e, read_lib bs = Err e).
@@ -57,6 +68,67 @@ Theorem C10_proper_prefix_rejected :
     forall l, read_lib (firstn k bs) <> Ok l.
 Proof. exact read_proper_prefix_rejected. Qed.
 
+
+(** (4) Re-read: every library the reader returns for a byte string can be written again and read back
+    to the same value (Rust `==`: doubles by value, so -0.0 = 0.0), EXCEPT libraries holding a real
+    equal to +-2^252 = 16^63 ([KnownClass_C10]; the words with exponent byte 127 and mantissa
+    >= 2^56 - 4 decode to it by rounding, and no GDSII real represents it: known-finding class
+    gds-real-rounds-to-16^63, theorem C15_decode_reencode_max_refuted).
+    [bytes_ok bs]: the entries of [bs] are bytes (0..255); the model's [bytes] is [list Z]. *)
+Theorem C10_known_class_def :
+  forall l, KnownClass_C10 l <->
+    exists x, In x (lib_reals l) /\ (x = 5742089524897382400 \/ x = 5742089524897382400 + 9223372036854775808).
+Proof. exact known_class_c10_spec. Qed.
+
+Theorem C10_reread :
+  forall bs l, bytes_ok bs -> read_lib bs = Ok l -> ~ KnownClass_C10 l ->
+    exists bs' l', write_lib l = Ok bs' /\ read_lib bs' = Ok l' /\ lib_rust_eqb l l' = true.
+Proof.
+  intros bs l Hb Hr Hk.
+  destruct (read_image bs l Hb Hr) as (Hs & Hk1 & _ & (bs' & Hw) & Hrt).
+  destruct (GdsRt_roundtrip_rt l bs' Hs (Hrt Hk) Hk1 Hw) as (l' & Hr' & He).
+  exists bs', l'. auto.
+Qed.
+
+(** more precisely: the library read back is the one returned with every real passed through the
+    codec ([lib_readback]), which leaves every real as it is except that -0.0 becomes +0.0 *)
+Theorem C10_reread_exact :
+  forall bs l, bytes_ok bs -> read_lib bs = Ok l ->
+    exists bs', write_lib l = Ok bs' /\ read_lib bs' = Ok (lib_readback l).
+Proof.
+  intros bs l Hb Hr.
+  destruct (read_image bs l Hb Hr) as (Hs & Hk1 & _ & (bs' & Hw) & _).
+  exists bs'. split; [exact Hw|]. apply GdsRt_roundtrip_core; assumption.
+Qed.
+
+(** The reader side of it (reader-image invariant): what the reader returns has the invariants of the
+    Rust types ([lib_shape_ok]: integer ranges, byte-valued UTF-8 strings, three / five points in
+    AREF / BOX), no string of even length with a trailing NUL (so it is outside the known class of
+    C01), every record of it fits the 16-bit length field, hence [write_lib] succeeds; and outside
+    [KnownClass_C10] every real-valued field survives encode-then-decode as a value ([real_rt],
+    through C15_decode_reencode_stable). *)
+Theorem C10_reader_image :
+  forall bs l, bytes_ok bs -> read_lib bs = Ok l ->
+    lib_shape_ok l /\ ~ KnownClass_C01 l /\ lib_fitsb l = true /\
+    (exists bs', write_lib l = Ok bs') /\
+    (~ KnownClass_C10 l -> forall x, In x (lib_reals l) -> real_rt x).
+Proof. exact read_image. Qed.
+
+(** The excluded class is really excluded: UNITS carrying the word 0x7FFFFFFFFFFFFFFF is read as
+    2^252, written as 0x7F00000000000000 and read back as 0. *)
+Definition c10_max_real_stream : bytes :=
+  [0; 6; 0; 2; 0; 3; 0; 28; 1; 2; 0; 0; 0; 0; 0; 0; 0; 0; 0; 0; 0; 0; 0; 0; 0; 0; 0; 0; 0; 0; 0; 0; 0; 0; 0; 6; 2; 6; 97; 98; 0; 20; 3; 5; 127; 255; 255; 255; 255; 255; 255; 255; 57; 68; 184; 47; 160; 155; 90; 84; 0; 4; 4; 0].
+
+Theorem C10_reread_known_class_refuted :
+  exists bs l, bytes_ok bs /\ read_lib bs = Ok l /\ KnownClass_C10 l /\
+    exists bs' l', write_lib l = Ok bs' /\ read_lib bs' = Ok l' /\ lib_rust_eqb l l' = false.
+Proof.
+  exists c10_max_real_stream. eexists. split.
+  { apply bytes_okb_ok. vm_compute. reflexivity. }
+  split; [vm_compute; reflexivity|]. split; [vm_compute; reflexivity|].
+  eexists. eexists. split; [vm_compute; reflexivity|]. split; vm_compute; reflexivity.
+Qed.
+
 (** The code as found (before commit a280dfb) violated (1): a library whose name is the empty
     string -- LIBNAME with a zero-length payload -- made `data[len - 1]` underflow in read_str.
     The repaired reader accepts the same stream. *)
@@ -83,10 +155,23 @@ Proof.
   vm_compute. split; [eexists; split; reflexivity|]. split; [eexists; split; reflexivity|]. split; reflexivity.
 Qed.
 
+(** ... and it meets the hypotheses of (4): byte-valued, outside the known class, and it does re-read
+    to an equal library. *)
+Example C10_reread_nonvacuous :
+  forallb byte_okb c10_sample_stream = true /\
+  exists l bs' l', read_lib c10_sample_stream = Ok l /\ known_class_c10b l = false /\
+    write_lib l = Ok bs' /\ read_lib bs' = Ok l' /\ lib_rust_eqb l l' = true /\ length (lib_reals l) = 3%nat.
+Proof.
+  split; [vm_compute; reflexivity|]. eexists. eexists. eexists.
+  split; [vm_compute; reflexivity|]. split; [vm_compute; reflexivity|].
+  split; [vm_compute; reflexivity|]. split; [vm_compute; reflexivity|]. split; vm_compute; reflexivity.
+Qed.
+
 (** statements pinned: a change of a statement above breaks the build *)
 Check C10_no_panic : forall bs f, read_lib_fuel true f bs <> Panic.
 Check C10_terminates_linear : forall bs, read_lib_fuel true (read_fuel bs) bs <> OutOfFuel.
 Check C10_fuel_bound : forall bs f, (length bs < 4 * f)%nat -> read_lib_fuel true f bs <> OutOfFuel.
+Check C10_fuel_irrelevant : forall bs f, (length bs < 4 * f)%nat -> read_lib_fuel true f bs = read_lib bs.
 Check C10_truncation_rejected :
   forall bs l, read_lib bs = Ok l ->
     exists n rs, (n <= length bs)%nat /\ split_stream (firstn n bs) = Some (rs, []) /\
@@ -95,13 +180,26 @@ Check C10_incomplete_rejected : forall bs, complete_to_endlib bs = false -> fora
 Check C10_proper_prefix_rejected :
   forall bs n rs k, (n <= length bs)%nat -> split_stream (firstn n bs) = Some (rs, []) -> (k < n)%nat ->
     forall l, read_lib (firstn k bs) <> Ok l.
+Check C10_reread :
+  forall bs l, bytes_ok bs -> read_lib bs = Ok l -> ~ KnownClass_C10 l ->
+    exists bs' l', write_lib l = Ok bs' /\ read_lib bs' = Ok l' /\ lib_rust_eqb l l' = true.
+Check C10_reread_exact :
+  forall bs l, bytes_ok bs -> read_lib bs = Ok l ->
+    exists bs', write_lib l = Ok bs' /\ read_lib bs' = Ok (lib_readback l).
 Check C10_orig_refuted : exists bs, read_lib_orig bs = Panic /\ exists l, read_lib bs = Ok l /\ l_name l = [].
 
 Print Assumptions C10_no_panic.
 Print Assumptions C10_terminates_linear.
 Print Assumptions C10_fuel_bound.
+Print Assumptions C10_fuel_irrelevant.
+Print Assumptions C10_fuel_monotone.
 Print Assumptions C10_read_total.
 Print Assumptions C10_truncation_rejected.
 Print Assumptions C10_incomplete_rejected.
 Print Assumptions C10_proper_prefix_rejected.
+Print Assumptions C10_known_class_def.
+Print Assumptions C10_reread.
+Print Assumptions C10_reread_exact.
+Print Assumptions C10_reader_image.
+Print Assumptions C10_reread_known_class_refuted.
 Print Assumptions C10_orig_refuted.
